@@ -87,6 +87,7 @@ _circuit_prop("C10", ["res", "conc", "open", "ev"], "")
 _circuit_prop("C09", ["ev", "open", "fan"], "")
 
 
+
 PROPS["C02"] = {
     "components": [Seq("opener", 2500, 100000), CircuitSeq("C02", ["ev", "open"], 800, 30000)],
     "rule": "opener: event sequences on hystrix.Opener / ConsecutiveErrOpener with boundary-directed (errors, attempts, pct, volume): 60% exact-percentage boundaries 100*e = pct*a nudged by -1/0/+1, "
@@ -143,3 +144,7 @@ PROPS["C11"] = {
     "trusted_base": TB_COMMON + TB_SCHED,
     "assumptions": ["partial by nature: the Go memory model, fairness and network-facing diagnostics are outside the model"],
 }
+
+PROPS["C09"]["components"].append(Sched("trans", 3000, 150000, exhaustive_limit=3000))
+PROPS["C09"]["rule"] += " trans: 2-4 threads among OpenCircuit / CloseCircuit / failing call (opener says open) / succeeding probe (closer admits and says close) race from a closed or open circuit under the cooperative scheduler; quiescent monitor: alternation and IsOpen = last notification."
+PROPS["C09"]["trusted_base"] = TB_CIRCUIT + TB_SCHED
